@@ -2801,6 +2801,8 @@ int hwloc_topology_export_xml(hwloc_topology_t topology, const char *filename, u
   }
 
   hwloc_internal_distances_refresh(topology);
+  /* targets and initiators that were removed (e.g. by restrict) must not be exported either */
+  hwloc_internal_memattrs_refresh(topology);
 
   hwloc_localeswitch_init();
 
@@ -2841,6 +2843,8 @@ int hwloc_topology_export_xmlbuffer(hwloc_topology_t topology, char **xmlbuffer,
   }
 
   hwloc_internal_distances_refresh(topology);
+  /* targets and initiators that were removed (e.g. by restrict) must not be exported either */
+  hwloc_internal_memattrs_refresh(topology);
 
   hwloc_localeswitch_init();
 
